@@ -1,4 +1,5 @@
 import BornoModel.Eval
+import BornoModel.Lemmas.Signals
 /-! # C05 — branches and loops run exactly the arms and iterations their conditions dictate -/
 namespace Borno.Props.C05
 open Borno
@@ -103,6 +104,31 @@ theorem break_continue_signals (f : Nat) (line env : Nat) (repl : Bool) (σ : St
     evalS P (f + 1) (.breakS line) env repl σ = .ok (.nil, .brk line) σ ∧
     evalS P (f + 1) (.continueS line) env repl σ = .ok (.nil, .cont line) σ := by
   constructor <;> (rw [evalS]; simp [guardErr, ER.seq, Res.bind, h0])
+
+/-- evaluating an expression — a condition, an increment, an argument, a call — never yields a
+    `break`, `continue` or `return` signal: calls absorb `return`, built-ins yield none -/
+theorem expressions_raise_no_signal (f : Nat) (e : Expr) (env : Nat) (repl : Bool) (σ σ' : Store) (v : Val) (sig : Signal)
+    (h : evalE P f e env repl σ = .ok (v, sig) σ') : sig = .none :=
+  evalE_noSig P f e env repl σ (v, sig) σ' h
+
+/-- **`থামো` and `চালিয়ে_যাও` leave only the innermost enclosing loop**: whatever the body does, what
+    leaves a `যতক্ষণ` statement or a `ফর` loop is no signal, or a `return` on its way to the call —
+    never a `break` or `continue`, which therefore cannot reach an outer loop -/
+theorem loops_absorb_break_and_continue (f : Nat) (c : Expr) (inc : Option Expr) (b : Stmt) (env : Nat) (repl : Bool)
+    (σ σ' : Store) (v : Val) (sig : Signal) :
+    (evalS P f (.whileS c b) env repl σ = .ok (v, sig) σ' → sig = .none ∨ ∃ l x, sig = .ret l x) ∧
+    (forLoop P f c inc b env repl σ = .ok (v, sig) σ' → sig = .none ∨ ∃ l x, sig = .ret l x) := by
+  constructor
+  · intro h
+    cases f with
+    | zero => rw [evalS] at h; cases h
+    | succ f =>
+      rw [evalS] at h
+      unfold guardErr at h
+      split at h
+      · cases h; exact Or.inl rfl
+      · exact whileLoop_sig P f c b env repl σ (v, sig) σ' h
+  · intro h; exact forLoop_sig P f c inc b env repl σ (v, sig) σ' h
 
 /-- a `ফর` statement without a condition runs as if its condition were the literal `true` -/
 theorem for_missing_condition_true : forCond none = .literal (.bool true) 0 ∧ ∀ e, forCond (some e) = e := ⟨rfl, fun _ => rfl⟩
